@@ -365,6 +365,106 @@ theorem inv_storeInCache {db toReq recv : List Hash} {now ttl : Nat} {gs : List 
     (fun h hh' => List.mem_map.mpr ⟨h, hh', rfl⟩)
   exact inv_foldl_groups hh gs c (fun g hg => validGroups_group hv hg) hinv
 
+/-! ### every iteration order of the Go map -/
+
+theorem mem_groupKeys (p : Prefix) : ∀ l : List Hash, p ∈ groupKeys l ↔ ∃ h, h ∈ l ∧ prefix2 h = p
+  | [] => by simp [groupKeys]
+  | h :: rest => by
+    simp only [groupKeys, List.mem_cons, List.mem_filter, mem_groupKeys p rest, Bool.not_eq_true',
+      beq_eq_false_iff_ne, ne_eq]
+    constructor
+    · rintro (e | ⟨⟨x, hx, e⟩, _⟩)
+      · exact ⟨h, Or.inl rfl, e.symm⟩
+      · exact ⟨x, Or.inr hx, e⟩
+    · rintro ⟨x, hx | hx, e⟩
+      · subst hx; exact Or.inl e.symm
+      · by_cases hp : p = prefix2 h
+        · exact Or.inl hp
+        · exact Or.inr ⟨⟨x, hx, e⟩, hp⟩
+
+theorem nodup_groupKeys : ∀ l : List Hash, (groupKeys l).Nodup
+  | [] => by simp [groupKeys]
+  | h :: rest => by
+    rw [groupKeys, List.nodup_cons]
+    refine ⟨?_, (nodup_groupKeys rest).sublist List.filter_sublist⟩
+    intro hm
+    simp [List.mem_filter] at hm
+
+theorem nodup_of_map_fst : ∀ l : List (Prefix × List Hash), (l.map (·.1)).Nodup → l.Nodup
+  | [], _ => List.nodup_nil
+  | a :: l, h => by
+    rw [List.map_cons, List.nodup_cons] at h
+    rw [List.nodup_cons]
+    exact ⟨fun ha => h.1 (List.mem_map_of_mem ha), nodup_of_map_fst l h.2⟩
+
+theorem map_fst_canonGroups (recv : List Hash) : (canonGroups recv).map (·.1) = groupKeys recv := by
+  simp [canonGroups, List.map_map, Function.comp_def]
+
+/-- `validGroups` spelled out. -/
+theorem validGroups_iff (recv : List Hash) (gs : List (Prefix × List Hash)) :
+    validGroups recv gs = true ↔
+      (∀ g ∈ gs, g.2 = groupOf recv g.1 ∧ g.2 ≠ []) ∧
+      (∀ h ∈ recv, prefix2 h ∈ gs.map (·.1)) ∧ (gs.map (·.1)).Nodup := by
+  simp only [validGroups, Bool.and_eq_true, List.all_eq_true, beq_iff_eq, Bool.not_eq_true',
+    List.isEmpty_eq_false_iff, decide_eq_true_eq, List.any_eq_true, List.mem_map]
+  constructor
+  · rintro ⟨⟨h1, h2⟩, h3⟩
+    exact ⟨h1, fun h hh => by obtain ⟨g, hg, e⟩ := h2 h hh; exact ⟨g, hg, e⟩, h3⟩
+  · rintro ⟨h1, h2, h3⟩
+    exact ⟨⟨h1, fun h hh => by obtain ⟨g, hg, e⟩ := h2 h hh; exact ⟨g, hg, e⟩⟩, h3⟩
+
+/-- The first-appearance order (the one the driver tries first) is a valid
+iteration order of the map built from any list of received hashes. -/
+theorem canonGroups_valid (recv : List Hash) : validGroups recv (canonGroups recv) = true := by
+  rw [validGroups_iff, map_fst_canonGroups]
+  refine ⟨?_, ?_, nodup_groupKeys recv⟩
+  · intro g hg
+    simp only [canonGroups, List.mem_map] at hg
+    obtain ⟨p, hp, rfl⟩ := hg
+    refine ⟨rfl, ?_⟩
+    obtain ⟨h, hh, e⟩ := (mem_groupKeys p recv).mp hp
+    exact List.ne_nil_of_mem ((mem_groupOf recv p h).mpr ⟨hh, e⟩)
+  · intro h hh
+    exact (mem_groupKeys _ recv).mpr ⟨h, hh, rfl⟩
+
+/-- Every permutation of a valid order is valid: the theorems quantify over
+every order in which Go may range over the map. -/
+theorem validGroups_perm {recv : List Hash} {gs gs' : List (Prefix × List Hash)}
+    (hp : gs'.Perm gs) (h : validGroups recv gs = true) : validGroups recv gs' = true := by
+  rw [validGroups_iff] at h ⊢
+  obtain ⟨h1, h2, h3⟩ := h
+  have hm : (gs'.map (·.1)).Perm (gs.map (·.1)) := hp.map _
+  exact ⟨fun g hg => h1 g (hp.mem_iff.mp hg), fun x hx => hm.mem_iff.mpr (h2 x hx), hm.nodup_iff.mpr h3⟩
+
+/-- …and nothing else is: a valid order is a permutation of the canonical one. -/
+theorem validGroups_perm_canon {recv : List Hash} {gs : List (Prefix × List Hash)}
+    (h : validGroups recv gs = true) : gs.Perm (canonGroups recv) := by
+  have hc := canonGroups_valid recv
+  rw [validGroups_iff] at h hc
+  obtain ⟨h1, h2, h3⟩ := h
+  obtain ⟨c1, c2, c3⟩ := hc
+  rw [List.perm_ext_iff_of_nodup (nodup_of_map_fst _ h3) (nodup_of_map_fst _ c3)]
+  intro g
+  constructor
+  · intro hg
+    obtain ⟨e, hne⟩ := h1 g hg
+    obtain ⟨x, hx⟩ := List.exists_mem_of_ne_nil _ hne
+    rw [e, mem_groupOf] at hx
+    simp only [canonGroups, List.mem_map]
+    exact ⟨g.1, (mem_groupKeys _ recv).mpr ⟨x, hx.1, hx.2⟩, by rw [← e]⟩
+  · intro hg
+    simp only [canonGroups, List.mem_map] at hg
+    obtain ⟨p, hp, rfl⟩ := hg
+    obtain ⟨x, hx, e⟩ := (mem_groupKeys p recv).mp hp
+    have := h2 x hx
+    rw [e] at this
+    obtain ⟨g', hg', e'⟩ := List.mem_map.mp this
+    have e2 := (h1 g' hg').1
+    have hg'' : g' = (p, groupOf recv p) := by
+      cases g' with
+      | mk a b => simp only at e' e2; subst e'; rw [e2]
+    rw [← hg'']; exact hg'
+
 /-! ### Check -/
 
 theorem findInCache_sound (db : List Hash) (now : Nat) (hashes : List Hash) (c : Cache) (hinv : Inv db now c) :
